@@ -51,6 +51,9 @@ type EngOp struct {
 func (o EngOp) String() string {
 	switch o.Kind {
 	case "put", "putF":
+		if o.Val == "<same>" {
+			return fmt.Sprintf("putback(%q)", o.Key)
+		}
 		return fmt.Sprintf("%s(%q)", o.Kind, o.Key)
 	case "delF":
 		return fmt.Sprintf("delF(%q)", o.Key)
@@ -116,6 +119,13 @@ func newEngRun(dir string, c EngCfg) (*EngRun, error) {
 }
 
 func (r *EngRun) val(o EngOp) []byte {
+	if o.Val == "<same>" {
+		// exactly the bytes the key has in the committed state (a write that "puts the value back")
+		if v, ok := r.Model[o.Key]; ok {
+			return append([]byte{}, v...)
+		}
+		return []byte(fmt.Sprintf("v%d", r.Step))
+	}
 	if o.Val != "" {
 		if o.Val == "<empty>" {
 			return []byte{}
